@@ -330,6 +330,12 @@ def enum_tls(tier):
             yield {"backend": backend, "tls": vn, "k": full, "slow": True}
             # the complete request as two TLS records that arrive in one TCP read, and nothing after it
             yield {"backend": backend, "tls": vn, "k": 10**9, "slow": False, "two_records": True}
+    # the server as start_server assembles it (its own keyword arguments to create_server included): a peer that completes the
+    # handshake, or sends part of / all of a request line, and then says nothing more - not even a close_notify in answer
+    # to the server's
+    for vn in VERS:
+        for sr in (False, "partial"):
+            yield {"backend": "stdlib", "tls": vn, "k": 10**9, "slow": False, "send_request": sr, "wiring": "start_server"}
     # a client certificate that the TLS library accepts and the X.509 parser rejects (PyOpenSSL path asks for certificates)
     for vn in VERS:
         for ccert in ("hostile-v4", "hostile-bool"):
@@ -351,8 +357,18 @@ def run_tls(case: dict):
         sim = srvsim.Sim(loop)
         handler = srvsim.build_handler(sim, {"kind": "async-value", "status": 20, "meta": "text/gemini", "body": "B",
                                              "gate": case["slow"]})
-        factory, sslctx = stacks.manual_stack(backend, handler)
         from vlib import certs as _certs
+
+        task = None
+        if case.get("wiring") == "start_server":
+            from nauyaca.server.config import ServerConfig
+            from props import c09 as _c09
+
+            c_ = _certs.get("rsa-a")
+            cfg = ServerConfig(host="127.0.0.1", port=1965, document_root=_c09._docroot(), certfile=c_.cert_path, keyfile=c_.key_path)
+            factory, sslctx, task = await stacks.capture_start_server(loop, cfg)
+        else:
+            factory, sslctx = stacks.manual_stack(backend, handler)
 
         conn = memnet.ServerConn(loop, factory, sslctx, memnet.permissive_client_ctx(minv=ver, maxv=ver, cert=_certs.get(ccert) if ccert else None),
                                  **({"peername": (case["peer"], 40123)} if case.get("peer") else {}))
@@ -370,7 +386,9 @@ def run_tls(case: dict):
         for _ in range(30):
             conn.client.step()
             if conn.client.handshaken and not queued and case.get("send_request", True):
-                if case.get("two_records"):
+                if case.get("send_request") == "partial":
+                    conn.client.to_send += REQS[0][:9]
+                elif case.get("two_records"):
                     cut = len(REQS[0]) - 2
                     conn.client.obj.write(REQS[0][:cut])
                     conn.client.obj.write(REQS[0][cut:])   # second record: just the CRLF
@@ -392,12 +410,24 @@ def run_tls(case: dict):
         await conn.pump()
         await asyncio.sleep(HORIZON)
         await conn.pump()
+        if task is not None:
+            task.cancel()
         return conn, sent[0], at100
 
     conn, sent, at100 = vloop.run(scenario, horizon=HORIZON * 3)
     plain = bytes(conn.client.plain)
     closed_at = conn.tcp.close_t
     info = {"plain": b2s(plain[:40]), "closed_at": closed_at, "hs_len": hs_len, "full": full, "sent": sent}
+    if case.get("wiring"):
+        # a TLS session exists and no complete request ever came: the request timeout applies; asyncio then waits for the
+        # peer's close_notify for its (default) shutdown grace before dropping the TCP connection
+        if closed_at is None:
+            return viol("never-disconnected", f"start_server wiring, TLS{case['tls']}: handshake done, "
+                        f"{'part of a request line' if case.get('send_request') else 'nothing'} sent, then silent; still open at {HORIZON}s",
+                        where="request", **info)
+        if closed_at > RT + 30.0 + 1.0:
+            return viol("disconnected-late", f"start_server wiring: request stall closed at {closed_at} > {RT + 31.0}", **info)
+        return ok(**info)
     if ccert:
         # whatever the server makes of such a certificate, the then-silent peer must not stay connected for ever
         if closed_at is None:
